@@ -379,6 +379,23 @@ theorem deleteNodesWithTag_spec (s : St) (n : Nat) (t : Str) (hn : n < s.heap.le
   exact deleteKidsWithTag_abs s hn t
 
 open Gedcom.CacheEff in
+/-- **Obligation**: every statement of `Document.AddNode` (helper `addPointerToCache` inlined, go/ast) is
+    inside the fragment — nothing skipped or guessed — and the body ends with the version bump. -/
+theorem document_addNode_translated :
+    docAddFragment Generated.documentAddNode = true ∧
+    Generated.documentAddNode.getLast? = some ⟨.always, .bumpLinks⟩ := by decide
+
+open Gedcom.CacheEff in
+/-- **`doc.AddNode(record)` of the model is the translated body of `Document.AddNode`**, run in source
+    order on the state in which the record has been allocated — for a plain node, an INDI record and a
+    FAM record alike (the guards `pointer != ""` and `case TagFamily` are evaluated on the record). -/
+theorem docAddNode_is_source (s : St) (t v p : Str) :
+    (exec Cache.flags s (.docAddNode t v p)).1 =
+      runDocAdd s.heap.length Generated.documentAddNode (alloc ⟨t, v, p, [], 0⟩ s) := by
+  rw [flags_eq]
+  exact docAppend_is_source _ s
+
+open Gedcom.CacheEff in
 /-- **Obligation**: the body of `DeleteNodesWithTag` (go/ast, `Generated.deleteNodesWithTagLoop`) is a
     loop over a *copy* of the child list, tests the tag, and calls `DeleteNode` on the loop variable —
     nothing else. -/
